@@ -312,6 +312,45 @@ example : (final { exForever with recv := [⟨.AfterChooseHost, List.replicate 4
 example : (final { exForever with env := envRetry }).retried = false ∧ (final { exForever with env := envRetry }).cleaned = true ∧
     backPart (trace { exForever with env := envRetry }) = [.spass 0 [(0, .Continue)], .dh (some 500) true] := by decide +kernel
 
+/-! ### [proxy8] the label `reset during UpFilter`
+
+`Env.upfReset` adds to the schedules of this machine the event the shared downstream machine got with the last repair
+(`upResetL` enabled while `upfRunning`): the upstream stream of the accepted streamed response is reset while the worker runs
+the sender filters; the `processError` that ends the UpFilter `case` finds it at `s.phase == UpFilter`.  Every theorem above
+(`order`, `once_receive`, `resume`, `deny_not_forwarded`, `once_send`, `single_reply`, `outcome_total`, `never_abandoned`,
+`complete`, the predicate theorems) is stated for every `Cfg` and therefore quantifies over the schedules containing it. -/
+
+/-- the event needs an upstream stream; its enabling condition "no deny in the trace" is implied by "admitted upstream"
+(`deny_not_forwarded`), i.e. the guard never suppresses an event that could happen -/
+theorem upf_guard_redundant (c : Cfg) (n : Nat) (h : (run c n init).trace.any isUpAdmitted = true) :
+    ¬ DenyIn (run c n init).trace := by
+  intro hd
+  have hno := deny_noUp c n hd
+  obtain ⟨e, he, ha⟩ := List.any_eq_true.mp h
+  have := hno e he
+  cases e <;> simp [isUpAdmitted, isUp] at ha this
+
+/-- a streamed 200 whose upstream stream is reset during the sender pass -/
+def envUpf : Env :=
+  { route := fun _ => .found, host := fun _ => true, poolFail := false, up := .resp 200 true false, upfReset := true }
+
+/-- not retried (no retry policy): the error reply of the reset reason replaces the response — after the ONE sender pass, one
+reply, stream cleaned (on the code before a3a21969e the worker left here without reply) -/
+example : trace { recv := [⟨.AfterRoute, []⟩], send := [⟨[]⟩], env := envUpf } =
+    [.rpass .BeforeRoute 0 [], .rpass .AfterRoute 0 [(0, {})], .rpass .AfterChooseHost 0 [], .up false,
+     .spass 0 [(0, .Continue)], .dh (some 502) true] ∧
+    (final { recv := [⟨.AfterRoute, []⟩], send := [⟨[]⟩], env := envUpf }).cleaned = true := by decide +kernel
+
+/-- … with a retriable reason and a retry policy the request is handed to the retry path (nothing was sent downstream) -/
+def envUpfRetry : Env :=
+  { envUpf with resetReason := "ConnectionTermination", pol := { disabled := false, retryOn := true, numRetries := 1 } }
+
+example : (final { recv := [], send := [⟨[]⟩], env := envUpfRetry }).retried = true := by decide +kernel
+
+/-- … and after a deny the event does not exist: the filter's 403 is the reply -/
+example : backPart (trace { recv := [⟨.AfterRoute, [⟨.hijack 403 false, .Stop⟩]⟩], send := [⟨[]⟩], env := envUpf }) =
+    [.spass 0 [(0, .Continue)], .dh (some 403) true] := by decide +kernel
+
 /-! ## many streams: filter INSTANCES and configuration UPDATES (`Model/FilterInst.lean`)
 
 A history is any list of events `upd l cfg` (AddOrUpdateStreamFilterConfig) / `create s l` (NewStreamDetect of stream `s` on
